@@ -14,6 +14,7 @@ import (
 	"os"
 	"path/filepath"
 	"sort"
+	"strings"
 	"testing"
 
 	"github.com/influxdata/influxdb/tsdb/engine/tsm1"
@@ -218,6 +219,32 @@ func compareCache(c *tsm1.Cache, m cacheModel) string {
 	return ""
 }
 
+// canonEntry renders a WAL entry (map order removed).
+func canonEntry(e tsm1.WALEntry) string {
+	switch t := e.(type) {
+	case *tsm1.WriteWALEntry:
+		var keys []string
+		for k := range t.Values {
+			keys = append(keys, k)
+		}
+		sort.Strings(keys)
+		var sb strings.Builder
+		sb.WriteString("write")
+		for _, k := range keys {
+			fmt.Fprintf(&sb, " %q:", k)
+			for _, v := range t.Values[k] {
+				fmt.Fprintf(&sb, "[%d %v]", v.UnixNano(), v.Value())
+			}
+		}
+		return sb.String()
+	case *tsm1.DeleteWALEntry:
+		return fmt.Sprintf("delete %q", t.Keys)
+	case *tsm1.DeleteRangeWALEntry:
+		return fmt.Sprintf("deleterange %q [%d,%d]", t.Keys, t.Min, t.Max)
+	}
+	return fmt.Sprintf("%T", e)
+}
+
 func loadInto(path string) (*tsm1.Cache, error) {
 	c := tsm1.NewCache(0)
 	l := tsm1.NewCacheLoader([]string{path})
@@ -290,6 +317,40 @@ func exec(run *core.Run, pl interface{}) {
 		return
 	}
 	size := int64(len(full))
+	// Every entry the segment reader yields must stay what it was when it was
+	// read: the reader decodes into pooled buffers, and an entry that still
+	// points into one changes under its holder as soon as the next entry (of
+	// this or of another shard's segment) is read.
+	{
+		f, err := os.Open(seg)
+		if err != nil {
+			run.Fail("harness-error", "", "open segment: %v", err)
+			return
+		}
+		rd := tsm1.NewWALSegmentReader(f)
+		var held []tsm1.WALEntry
+		var then []string
+		for rd.Next() {
+			e, err := rd.Read()
+			if err != nil {
+				break
+			}
+			held = append(held, e)
+			then = append(then, canonEntry(e))
+		}
+		rd.Close()
+		for i, e := range held {
+			if now := canonEntry(e); now != then[i] {
+				run.Fail("wal-entry-changed-after-later-reads", fmt.Sprintf("%T", e), "entry %d of the segment read back as %s and, once the following entries had been read, as %s: the entry shares memory with the reader's buffers", i, then[i], now)
+				return
+			}
+		}
+		if len(held) != len(p.Entries) {
+			run.Fail("wal-entries-lost-without-a-cut", "", "the intact segment holds %d entries, its reader yields %d", len(p.Entries), len(held))
+			return
+		}
+		run.ProbeN("entries-held-across-later-reads", len(held))
+	}
 	// offsets to cut at
 	cuts := map[int64]bool{0: true, size: true}
 	if size <= 1500 {
